@@ -467,13 +467,8 @@ pub fn materialise(case: &Case) -> Inputs {
         MfboChunk { max_plane: a, min_plane: b }
     });
     let water = mk_water(case, &mut r);
-    let mtxf = match case.mtxf {
-        0 => None,
-        1 => Some(case.n_tex as usize),
-        2 => Some((case.n_tex as usize).saturating_sub(1).max(1)),
-        _ => Some(case.n_tex as usize + 1 + r.below(3) as usize),
-    }
-    .map(|n| MtxfChunk { flags: (0..n).map(|_| if r.below(4) == 0 { r.u32() } else { r.below(4) }).collect() });
+    // "Flag count should match texture count" (add_texture_flags docs)
+    let mtxf = (case.mtxf > 0).then_some(case.n_tex as usize).map(|n| MtxfChunk { flags: (0..n).map(|_| if r.below(4) == 0 { r.u32() } else { r.below(4) }).collect() });
     let mamp = case.mamp.then(|| MampChunk { amplifier: r.u32() });
     let mtxp = (case.mtxp > 0).then(|| MtxpChunk {
         entries: (0..case.mtxp)
